@@ -10,7 +10,8 @@
     part is covered by the correspondence and the oracle of checks/C13.py.  *)
 From Coq Require Import List NArith Bool.
 From TG.Model Require Import CoreAst Scope BangOps Indexer.
-From TG.Proofs Require Import DiagLocal.
+From TG.Model Require Import ScopeSpec.
+From TG.Proofs Require Import DiagLocal ScopeSim ScopeSimRec.
 Import ListNotations.
 Open Scope N_scope.
 
@@ -185,3 +186,44 @@ Example C13_complete_nonvacuous :
   In (mkR 0 40 47, DArity)
      (s_diags (snd (index_bang 9 XAdd None [ex_intv 45 46] (mkR 0 40 47) ex_s))).
 Proof. vm_compute. repeat split; try congruence; auto. Qed.
+
+(** C13_sound, resolution half (partial): a well-scoped program of the fragment of C05_resolution_partial (all
+    statement kinds, classes / defs without parent classes, no field access, one file) yields NO "class not found",
+    "multiclass not found" or "symbol not found" diagnostic; and (visited_all, the coverage half of
+    C13_complete_<undefined ...>) every use the declarative resolver lists IS visited by the indexer: it is in the
+    use log with the declaration the resolver assigns.  (The typing half of C13_sound is not under a theorem.) *)
+Theorem C13_sound_no_not_found_partial : forall files n l,
+    fragB_stmts l = true ->
+    forallb resolved (fst (spec_stmts 0 env0 l)) = true ->
+    s_bad (snd (iterM (index_stmt files n) l st0)) = false ->
+    forall d, In d (s_diags (snd (iterM (index_stmt files n) l st0))) -> nf_kind (snd d) = false.
+Proof.
+  intros files n l Hf HR Hb d Hin.
+  destruct (file_resolution files n l Hf HR Hb) as [_ Hnf].
+  destruct (nf_kind (snd d)) eqn:E; [|reflexivity].
+  assert (In d (nf (snd (iterM (index_stmt files n) l st0)))) by (unfold nf; apply filter_In; split; assumption).
+  rewrite Hnf in H. destruct H.
+Qed.
+Check C13_sound_no_not_found_partial : forall files n l,
+    fragB_stmts l = true ->
+    forallb resolved (fst (spec_stmts 0 env0 l)) = true ->
+    s_bad (snd (iterM (index_stmt files n) l st0)) = false ->
+    forall d, In d (s_diags (snd (iterM (index_stmt files n) l st0))) -> nf_kind (snd d) = false.
+Print Assumptions C13_sound_no_not_found_partial.
+
+Theorem C13_visited_all_partial : forall files n l u,
+    fragB_stmts l = true ->
+    forallb resolved (fst (spec_stmts 0 env0 l)) = true ->
+    s_bad (snd (iterM (index_stmt files n) l st0)) = false ->
+    In u (fst (spec_stmts 0 env0 l)) -> In u (s_uses (snd (iterM (index_stmt files n) l st0))).
+Proof.
+  intros files n l u Hf HR Hb Hin.
+  destruct (file_resolution files n l Hf HR Hb) as [Hu _].
+  rewrite <- Hu in Hin. rewrite <- in_rev in Hin. exact Hin.
+Qed.
+Check C13_visited_all_partial : forall files n l u,
+    fragB_stmts l = true ->
+    forallb resolved (fst (spec_stmts 0 env0 l)) = true ->
+    s_bad (snd (iterM (index_stmt files n) l st0)) = false ->
+    In u (fst (spec_stmts 0 env0 l)) -> In u (s_uses (snd (iterM (index_stmt files n) l st0))).
+Print Assumptions C13_visited_all_partial.
